@@ -11,7 +11,10 @@ META = {
             "evaluates the property on the observed returns and releases alone.  Coincidences of grant and cancellation are forced at both places where "
             "they can happen: at the select (a context whose Done() parks the request there while its blockers release and it is cancelled), and at the "
             "locker's mutex ('handover': the harness holds the mutex until a release and the cancellation path of a waiter are both parked on it, in either "
-            "order; with the release first the waiter runs its cancellation path having been granted after it left the select — one model resolution only).",
+            "order; with the release first the waiter runs its cancellation path having been granted after it left the select — one model resolution only). "
+            "The arrival path is opened the same way: 'arrive-during-release' parks a newcomer inside Lock, in one of the log calls Lock makes through the "
+            "request's own logger (between the failed direct check and the place in the queue), starts the release of a holder, observes whether it has to "
+            "wait on the mutex or runs in between, and requires what the model's single order arrive-then-release gives: the newcomer is granted.",
     "note": "Trusted: Lean kernel (axioms propext/Classical.choice/Quot.sound at most); the reading of lock.go as atomic sections delimited by the mutex; "
             "the Go runtime's select/channel/mutex semantics (the model takes the select's choice among ready cases as nondeterministic; sync.Mutex "
             "serves goroutines parked on it first in, first out when nobody else asks for it); the harness. "
@@ -79,6 +82,8 @@ def oracle(inp, out):
                 continue
             if all(not conflicts(reqs[w], reqs[h]) for h in hs):
                 culprit = blame([a for a in sorted(aborted) if conflicts(reqs[w], reqs[a])], tables)
+                if tables is not None and not (any(a in tables[1] for a in reqs[w][0]) or any(a in tables[1] or a in tables[0] for a in reqs[w][1])):
+                    culprit = []   # the observed tables hold nothing the request wants: nobody left anything behind, it was simply not woken
                 if culprit:
                     v.append(({"class": "cancel-leak", "moment": aborted[culprit[0]]},
                               "step %d: request %d %s still waits although it conflicts with no holder (holders %s); request %d %s, abandoned through "
@@ -89,12 +94,14 @@ def oracle(inp, out):
     steps = out.get("steps", [])
     for k, (op, st) in enumerate(zip(inp["ops"], steps)):
         kind = op["op"]
-        if kind == "arrive":
+        if kind in ("arrive", "arrive-during-release"):
             if st["res"] != "rejected":
                 i = op["r"]
                 reqs[i] = (op.get("read", []), op.get("write", []))
                 waiting.add(i)
-                holds = op.get("hold", [])
+                # arrive-during-release: the release of b was issued while the request was inside Lock; whatever order the locker
+                # gave the two, b has released by the end of the step
+                holds = op.get("hold", []) if kind == "arrive" else [{"op": "release", "r": op["b"]}]
                 hk = {h["op"] for h in holds}
                 if "cancel" in hk:   # the context is cancelled while the request stands at the entry of its select
                     kind = "select-entry" if "release" in hk else "cancel"
@@ -153,6 +160,10 @@ def oracle(inp, out):
             seen.add(canon(sig))
             res.append((sig, what))
     return res
+
+
+def bump(d, k):
+    d[k] = d.get(k, 0) + 1
 
 
 def strip(steps):
@@ -217,7 +228,7 @@ def shrink(ctx, inp, sig):
                     if not o["hold"]:
                         del o["hold"]
                     cands.append(ops[:k] + [o] + ops[k + 1:])
-            if ops[k]["op"] == "arrive":
+            if ops[k]["op"] in ("arrive", "arrive-during-release"):
                 for f in ("read", "write"):
                     for a in range(len(ops[k].get(f, []))):
                         cands.append(ops[:k] + [dict(ops[k], **{f: ops[k][f][:a] + ops[k][f][a + 1:]})] + ops[k + 1:])
@@ -239,6 +250,7 @@ def run(ctx):
         "Model.Lock reads lock.go as atomic sections delimited by DefaultLocker.mu (tryLock / unlock+recheck / the repaired cancellation path) and "
         "takes Go's choice among ready select cases as a nondeterministic label; tied to the real DefaultLocker by the differential only",
         "Go runtime semantics of mutex, channel close and select; the harness (contexts whose Done() is the yield point before the select; "
+        "a logger per request whose calls are a second yield point, inside Lock; "
         "overlay export VerifView/VerifQueueLen reading the unexported tables under the mutex, VerifMu handing out the mutex itself; "
         "'parked on the mutex' read from runtime.Stack: wait reason sync.Mutex.Lock with a frame of DefaultLocker)",
     ]
@@ -272,7 +284,10 @@ def run(ctx):
     matched, mism, choice_hist = 0, 0, {}
     stats = {"select_both_ready": 0, "select_took_grant": 0, "select_took_ctx": 0, "race": 0, "race_request_got_lock": 0, "race_request_got_error": 0,
              "handover": 0, "handover_release_first_request_was_granted": 0, "handover_release_first_request_still_queued": 0,
-             "handover_cancel_first": 0, "handover_order_forced": 0, "sequences_with_granted_handover": 0, "paths_per_sequence_max": 0}
+             "handover_cancel_first": 0, "handover_order_forced": 0, "sequences_with_granted_handover": 0, "paths_per_sequence_max": 0,
+             "arrive_during_release": 0, "arrive_during_release_by_outcome": {}, "arrive_during_release_at_log_call": {},
+             "arrive_during_release_newcomer_waited_behind_the_releaser": 0, "arrive_during_release_newcomer_granted_by_that_release": 0,
+             "sequences_with_arrive_during_release": 0}
     for inp in inputs:
         out, mod = impl.get(inp["id"]), model.get(inp["id"])
         m = match(out, mod) if out is not None and mod is not None else None
@@ -289,7 +304,17 @@ def run(ctx):
         if len(key) <= 12:
             choice_hist[key] = choice_hist.get(key, 0) + 1
         hg = False
+        adr = False
         for op, st, real in zip(inp["ops"], path["steps"], out["steps"]):
+            if op["op"] == "arrive-during-release" and real.get("res") != "rejected":
+                adr = True
+                stats["arrive_during_release"] += 1
+                bump(stats["arrive_during_release_by_outcome"], real.get("ho", "?"))
+                if real.get("log"):
+                    bump(stats["arrive_during_release_at_log_call"], real["log"])
+                if real.get("res") == "queued" and real.get("ho") in ("release-parked", "release-completed"):
+                    stats["arrive_during_release_newcomer_waited_behind_the_releaser"] += 1
+                    stats["arrive_during_release_newcomer_granted_by_that_release"] += real.get("ret", {}).get(str(op["r"])) == "ok"
             if st["nd"].startswith("handover"):
                 stats["handover"] += 1
                 stats[{"handover-granted": "handover_release_first_request_was_granted", "handover-queued": "handover_release_first_request_still_queued",
@@ -297,6 +322,7 @@ def run(ctx):
                 stats["handover_order_forced"] += real.get("ho") == "both-parked"
                 hg = hg or st["nd"] == "handover-granted"
         stats["sequences_with_granted_handover"] += hg
+        stats["sequences_with_arrive_during_release"] += adr
         for op, st in zip(inp["ops"], path["steps"]):
             if st["nd"] == "select":
                 stats["select_both_ready"] += 1
@@ -330,9 +356,10 @@ def run(ctx):
         # counters
         queued, granted_later, cancelled_later = set(), False, False
         for op, st in zip(inp["ops"], out.get("steps", [])):
-            opk = op["op"] + ("+hold" if op.get("hold") else "") + ("(%s first)" % op.get("first", "release") if op["op"] == "handover" else "")
+            opk = op["op"] + ("+hold" if op.get("hold") else "") + ("(%s first)" % op.get("first", "release") if op["op"] == "handover" else "") + \
+                  ("(at log call %s)" % op.get("at", 2) if op["op"] == "arrive-during-release" else "")
             dist["ops"][opk] = dist["ops"].get(opk, 0) + 1
-            if op["op"] == "arrive":
+            if op["op"] in ("arrive", "arrive-during-release"):
                 dist["requests"] += 1
                 rd, wr = op.get("read", []), op.get("write", [])
                 dist["account_in_both_sets"] += any(a in wr for a in rd)
@@ -360,7 +387,8 @@ def run(ctx):
     ctx.cov["rule"] = ("seeded operation sequences against the real DefaultLocker (<= %d operations, <= 6 accounts, <= 8 requests; arrive / release / cancel in "
                        "every order, arbitrary read and write sets incl. an account in both, duplicates, empty sets, contexts cancelled before the call, releases "
                        "by non-holders; a request kept at the entry of its select while its blockers release and its context is cancelled; cancel and release "
-                       "issued concurrently; cancel and release made to queue on the locker's mutex in either order before either runs), each ended by 'every holder releases until none is left'; corpus lines run %d times each; "
+                       "issued concurrently; cancel and release made to queue on the locker's mutex in either order before either runs; a release started while a newcomer stands "
+                       "in a log call of Lock, i.e. between its failed check and its place in the queue), each ended by 'every holder releases until none is left'; corpus lines run %d times each; "
                        "non-trivial = distinct sequence in which a request was queued and later granted or cancelled"
                        % (12 if ctx.quick else 40, REPEAT_CORPUS))
     ctx.cov["samples"] = [{"input": i, "impl": impl.get(i["id"])} for i in inputs[ncorpus:ncorpus + 2]] + \
@@ -372,7 +400,13 @@ def run(ctx):
                                         "race_*: cancel and release issued from two goroutines while the request was parked. "
                                         "handover_*: cancel and release issued while the harness holds the locker's mutex, released only when both are parked "
                                         "on it in the wanted order (handover_order_forced = both were seen parked); release first: the request runs its "
-                                        "cancellation path after the release — was_granted = that release had granted it, so it had to give the accounts back.")
+                                        "cancellation path after the release — was_granted = that release had granted it, so it had to give the accounts back. "
+                                        "arrive_during_release_*: the release of a holder started while a newcomer stood in one of the log calls Lock makes "
+                                        "through the request's logger; by_outcome: release-parked = the release had to wait on the locker's mutex (the call is "
+                                        "made under it), release-completed = it ran in between (the call is made outside the mutex), no-such-yield = the "
+                                        "newcomer made fewer log calls; at_log_call = the text of the call it stood in; waited_behind_the_releaser = the "
+                                        "newcomer's direct check had failed when the release was started, granted_by_that_release = it then got the lock in "
+                                        "the same step.")
     ctx.assumptions += [
         "an unlock function is called at most once, and only by the caller that received it",
         "mutex-delimited sections of lock.go are atomic; the select's choice among ready cases is arbitrary",
@@ -428,6 +462,8 @@ def contract_for(ctx, prop, n):
             if op["op"] == "handover" and st.get("res") == "handover":
                 forced["handover(%s first)" % op.get("first", "release")] += 1
                 forced["handover_order_forced"] += st.get("ho") == "both-parked"
+            if op["op"] == "arrive-during-release" and st.get("res") != "rejected":
+                forced["arrive-during-release(%s)" % st.get("ho", "?")] += 1
         for sig, what in oracle(inp, out):
             classes[sig.get("class")] += 1
             ctx.violation(dict(sig, property=prop, component="DefaultLocker"), "the account locker breaks its contract: " + what,
@@ -435,6 +471,7 @@ def contract_for(ctx, prop, n):
                            "note": "the select's choice is Go's own: --replay runs the input %d times" % REPEAT_REPLAY})
     ctx.cov["locker_contract"] = {"sequences": len(inputs), "violations_by_class": dict(classes), "coincidences_at_the_mutex": dict(forced),
                                   "rule": "op sequences (arrive / release / cancel, coincidences of grant and cancellation forced: at the select, and at the locker's "
-                                          "mutex — a release and a cancellation path queued on it in either order) through the real "
+                                          "mutex — a release and a cancellation path queued on it in either order; a release started while a newcomer is between "
+                                          "its failed check and its place in the queue) through the real "
                                           "command.DefaultLocker; exclusion, no missed wake-up, cancellation leaves nothing behind"}
     return len(inputs)
